@@ -162,6 +162,9 @@ def judgeC02 (arg impl : String) (same : Bool := true) : String :=
     if r.unmodelled then "skip" else
     let chans := r.song.tracks.filter (·.1 < 16)
     if !(chans.all fun (_, root) => Timeline.inDomain r.song root) then "skip" else
+    -- a drum routine whose first note is inside a `[]` loop: refused by the converter (repo fix b6d6699),
+    -- outside the encodable domain
+    if !(chans.all fun (_, root) => Fragment.routineNotesOutsideLoops r.song root) then "skip" else
     -- expected tick strings
     let exps := chans.map fun (id, root) => (id, Timeline.expected r.song r.platformSpec root)
     if exps.any (fun (_, e) => match e with | .error _ => true | .ok _ => false) then
